@@ -429,11 +429,19 @@ Definition events_c (st : pstate) : list event :=
   flat_map alias_events (ps_aliases st)
   ++ flat_map (def_events_after c_field_uses NStruct) (ps_structs st)
   ++ flat_map (fun d => if is_signal d then [] else def_events_after c_field_uses NMsg d) (ps_msgs st).
+(* generate_message_header (since 3dda184): `RTMA.MESSAGE_HEADER = RTMA.typedefs.RTMA_MSG_HEADER;` is written only
+   when a struct or an alias of that name is among the emitted typedefs (core definitions imported, or a user
+   typedef); otherwise RTMA.MESSAGE_HEADER keeps the [] it was initialised with *)
+Definition has_msg_header (st : pstate) : bool := existsb (fun d => String.eqb (pd_name d) "RTMA_MSG_HEADER") (ps_structs st).
+Definition has_header_alias (st : pstate) : bool := existsb (fun a => String.eqb (pa_name a) "RTMA_MSG_HEADER") (ps_aliases st).
+Definition matlab_header_events (st : pstate) : list event :=
+  if has_msg_header st then [Use NStruct "RTMA_MSG_HEADER"]
+  else if has_header_alias st then [Use NAlias "RTMA_MSG_HEADER"] else [].
 Definition events_matlab (st : pstate) : list event :=
   flat_map alias_events (ps_aliases st)
   ++ flat_map (def_events_before c_field_uses NStruct) (ps_structs st)
   ++ flat_map (def_events_before c_field_uses NMsg) (ps_msgs st)
-  ++ [Use NStruct "RTMA_MSG_HEADER"].
+  ++ matlab_header_events st.
 (* javascript module load: only the alias statements read anything; RTMA.SDF = {} comes later *)
 Definition js_alias_events (a : palias) : list event :=
   match pa_target a with
